@@ -16,10 +16,10 @@ import json, os, re, concurrent.futures as cf
 from vlib import Infra, log, read_ndjson, write_ndjson
 
 PROFILE = {
-    "C12": dict(quick=["F1q", "F3", "F4", "F5", "F6q", "F7", "F8", "F9", "F10", "F11", "F12", "F13", "F14"], thorough=["F1", "F2", "F3", "F4", "F5", "F6", "F7", "F8", "F9", "F10", "F11", "F12", "F13", "F14"],
+    "C12": dict(quick=["F1q", "F3", "F4", "F5", "F6q", "F7", "F8", "F9", "F10", "F11", "F12", "F13", "F14", "F15q"], thorough=["F1", "F2", "F3", "F4", "F5", "F6", "F7", "F8", "F9", "F10", "F11", "F12", "F13", "F14", "F15"],
                 rand=(160, 8000), mode="C12"),
-    "C14": dict(quick=["G1c", "G2b", "G2X", "G2S", "G2T", "G3", "G4", "G4X", "G5", "G6", "G7"],
-                thorough=["G1c", "G1l", "G1h", "G2a", "G2b", "G2c", "G2d", "G2e", "G2X", "G2S", "G2T", "G3", "G4", "G4X", "G5", "G6", "G7"],
+    "C14": dict(quick=["G1c", "G2b", "G2X", "G2S", "G2T", "G3", "G4", "G4X", "G5", "G6", "G7", "G8", "G9"],
+                thorough=["G1c", "G1l", "G1h", "G2a", "G2b", "G2c", "G2d", "G2e", "G2X", "G2S", "G2T", "G3", "G4", "G4X", "G5", "G6", "G7", "G8", "G9"],
                 rand=(160, 8000), mode="C14"),
     "C20": dict(quick=["H1q", "H2", "H3", "H4", "H5", "H6"], thorough=["H1", "H2", "H3", "H4", "H5", "H6"], rand=(160, 6000), mode="C20"),
 }
@@ -222,7 +222,7 @@ def run(ctx):
         if o["verdict"] == "unjudged":
             unjudged += 1
         classes.add((o["fam"], o["verdict"], tuple(sorted(o["errs"])), o["altkind"]))
-        if o["verdict"] in ("ok", "err") and o["fam"] != "conc":
+        if o["verdict"] in ("ok", "err", "open") and o["fam"] != "conc":
             judged_keys.add(o["key"])
         elif o["verdict"] == "record":
             rand_keys[o["id"]] = o["key"]
@@ -254,7 +254,8 @@ def run(ctx):
         evaluations=nvec, distinct_nontrivial=max(distinct, 0), behaviour_classes=len(classes),
         rule="vectors = every case of the listed families (YangSchemaSets.tla) plus TLC-sampled larger module sets (family R); "
              "distinct = distinct inputs by hash of (rendered YANG of the module set, enabled features, number of filters); non-trivial = judged, "
-             "i.e. the spec gives verdict ok or err (unjudged vectors and unjudged sampled sets are not counted); every generated module set contains "
+             "i.e. the spec gives verdict ok, err or open (open = the schema is prescribed if the module set compiles, whether it compiles is not; "
+             "unjudged vectors and unjudged sampled sets are not counted); every generated module set contains "
              "at least one uses, augment, deviation, if-feature, config/status placement or is compiled under 21 filters; "
              "behaviour_classes = (family, spec verdict, spec error classes, rewritten form) classes",
         samples=samples, families=fams, family_sizes=sizes, sampled_module_sets=nrand, unjudged_vectors=unjudged,
@@ -293,8 +294,9 @@ MANIFEST = {
              "reference-status rule to uses, if-feature, feature dependencies and augments, and applies deviate add/replace/delete/not-supported as edits of the "
              "target's source with the RFC's admissibility rules. TLC checks Schema(M + D) = Schema(Edit(M, D)); the harness compiles M + D and Edit(M, D) and "
              "requires both dumps to equal the prediction.",
-             note="replace of a property that exists only implicitly, not-supported of keys/unique leafs/default cases, reference status between a module and its "
-                  "submodule are unjudged; type value spaces are not modelled", design="4 C14", technique=YS),
+             note="replace of a property that exists only implicitly and reference status between a module and its submodule are unjudged; when a feature or "
+                  "not-supported removes a leaf that a list names in key/unique, or the default case of a choice, the node must be absent but the compile verdict "
+                  "and that one attribute of the parent are not judged (verdict open); type value spaces are not modelled", design="4 C14", technique=YS),
  "C20": dict(text="Prune(schema, f) removes every node failing the filter with its subtree for the filters of compile_filters.go (IsConfig/IsState/IsOpd under "
              "Include/Exclude/IncludeState, 21 combinations); TLC checks idempotence, top-down closure and attribute preservation. Every shape (config false at every "
              "subset of 11 places, list keys, cases, default cases, groupings, augments, features) is compiled unfiltered and under every filter: the filtered dump "
